@@ -17,6 +17,12 @@ reg('C18', 'exhaustive string enumeration + Hypothesis/mutation fuzzing against 
     '≤3-edit mutants of valid abbreviations extend beyond the bound. Exhaustive within the bound, sampled beyond it.',
     'Trusts the Token.start/.end attributes as the span interface; absence of violations beyond the enumerated length is not shown.')
 
+reg('C07', 'exhaustive string enumeration × fixed configs + Hypothesis (strings, fragments, random option sets) + mutation/prefix fuzzing; oracle = exception-type whitelist with error-position bound',
+    'Every string of length ≤ 3 (quick) / ≤ 4 (thorough) over the 27-symbol markup alphabet × 8 configurations and over the 23-symbol stylesheet '
+    'alphabet × 5 configurations is expanded; beyond the bound Hypothesis strings/fragment sequences with random option sets, all prefixes and '
+    '≤3-edit mutants of valid abbreviations. Anything escaping other than the two parse errors (with pos in range) is bucketed by root cause.',
+    'Termination is decided by a 20 s CPU-time watchdog per call (normal cost < 10 ms); repeat counts are bounded by the generator. Malformed user snippets are outside the domain.')
+
 NOT_APPLICABLE = [
 ]
 
